@@ -175,6 +175,19 @@ def mutants(design, classes=None):
             # extra connection to a port that does not exist
             if conns:
                 out.append(("extra_port", f"{mname}.{d[1]}.zz", replace_conn(design, mname, di, 0, add=("zz", conns[0][1])), {"bad_port"}))
+        # ---- a connected signal / port replaced afterwards by a new object of the same name ----
+        used = set()
+        for d in decls:
+            if d[0] in ("inst", "array", "pair"):
+                for _pn, e in d[_conns_index(d)]:
+                    for _p, sub in walk_expr(e):
+                        if sub[0] == "sig":
+                            used.add(sub[1])
+        for d in decls:
+            if d[0] in ("sig", "port") and d[1] in used and mod.get("name"):
+                dr = copy.deepcopy(design)
+                dr["redeclare"] = [(mod["name"], d[1])]
+                out.append(("replaced_signal", f"{mname}.{d[1]}", dr, {"orphan"}))
         # ---- a no-connect that is also referenced: (i.p = nc, j.q = i.p) ----
         insts = [(di, d) for di, d in enumerate(decls) if d[0] == "inst"]
         for (di, d) in insts:
